@@ -14,7 +14,7 @@ import json
 import random
 from collections import Counter
 
-from lib import common, psess, spec
+from lib import common, psess, ptrace, spec
 from lib.proto import Relay, Conn
 from lib.kvimpl import model_event, model_filter
 
@@ -274,8 +274,11 @@ def run(report, tier, seed):
         "(incl. 0 and boundary values), delegation tags, valueless tags; fan-out sessions of 10-24 messages on 2-4 connections on "
         "both backends with subscription ids shared between connections, half of them with colliding connection ids; live-vs-stored: "
         "5-10 filters open on one connection, 4-11 events (one NIP-26 delegated) published, then every filter queried; "
+        "unsettled trace sessions: bursts of 1-6 messages on 2-4 connections are queued before the loop runs, the run is "
+        "recorded as labels of the machine (wrappers applied from outside) and must be accepted by `proto.trace` with equal "
+        "transcripts; "
         "non-trivial = something was pushed / matched")
-    report.assumptions += ["quiescence after every message; all interleavings are covered by the theorems over `run`",
+    report.assumptions += ["settled sessions: quiescence after every message; trace sessions: whatever interleaving the event loop produces for a burst; all interleavings are covered by the theorems over `run`",
                            "NIP-26 delegation tokens are produced with aionostr's own signer"]
     try:
         live_match_corr(report, drv, rng, keys, 400 if tier == "quick" else 20000)
@@ -285,6 +288,10 @@ def run(report, tier, seed):
         for i in range(3 if tier == "quick" else 60):
             for backend in ("sql", "kv"):
                 live_vs_stored(report, backend, rng, keys, i)
+        # unsettled runs: the recorded schedule of the real relay must be a run of the machine
+        for i in range(5 if tier == "quick" else 120):
+            for backend in ("sql", "kv"):
+                ptrace.run_trace_session(report, drv, backend, rng, keys, i)
     finally:
         drv.close()
 
